@@ -3,6 +3,7 @@
 Decides: case-insensitivity of every name-keyed container and comparator, first-occurrence-wins insertion and intact raw
 value, writer/reader token-table agreement, registration of every concrete header type, rounding of the quality value.
 Round-trip equality over all representable values is value-level and not decided."""
+import os
 import re
 from .. import cfg, lib, facts, tables
 from ..facts import AnalysisBroken, strip_tmpl
@@ -280,3 +281,27 @@ def run(ck):
               "a header value is stored only when its line is known to be complete: nothing is written into the header tables on a path "
               "where the buffered input may just have run out -- the tables keep the first value they are given, so a value cut short by "
               "the end of a read would stay cut short", min_instances=1)
+
+    # ---------------- R11: a line ends at CR LF, never at a lone CR ----------------
+    ck.rule("C16-R11", "contradiction / sibling agreement over every function of the parser units",
+            "wherever the stream and message parsers look for the carriage return that ends a line (a comparison with CR or a search for "
+            "it), the same function also requires the line feed after it, as StreamCursor::eol() does: a second end-of-line test that is "
+            "content with a lone CR cuts a header value there and swallows the byte behind it as if it were the LF", 1)
+    CRRE = re.compile(r"(?<![A-Za-z_0-9])(CR|'\\r'|0x0[dD]\b)(?![A-Za-z_0-9])")
+    LFRE = re.compile(r"(?<![A-Za-z_0-9])(LF|'\\n'|0x0[aA]\b)(?![A-Za-z_0-9])")
+    ncr = 0
+    for g_ in prog.funcs.values():
+        if os.path.basename(g_.file) not in ("http.cc", "stream.cc", "stream.h", "http_headers.cc") or not (g_.file.startswith(facts.REPO + "/src/") or g_.file.startswith(facts.REPO + "/include/")):
+            continue
+        cr = [e for e in g_.events(("cmp", "call")) if (e["k"] == "cmp" and CRRE.search(e.get("t") or "")) or
+              (e["k"] == "call" and any(CRRE.fullmatch((a.get("t") or "").strip()) for a in (e.get("args") or [])) and
+               re.search(r"(memchr|find|strchr|match_until)", e.get("callee") or ""))]
+        if not cr:
+            continue
+        ncr += 1
+        lf = [e for e in g_.events(("cmp", "call")) if (e["k"] == "cmp" and LFRE.search(e.get("t") or "")) or
+              (e["k"] == "call" and (e.get("callee") or "").endswith("StreamCursor::eol"))]
+        ck.ob("C16-R11", "%s/CR-needs-LF" % g_.base.replace("Pistache::", ""), bool(lf), cr[0].loc, g_,
+              "the carriage return is accepted as a line end only with the line feed behind it" if lf else
+              "`%s` looks for a carriage return, and nothing in %s requires a line feed after it: a lone CR inside a header value ends the line" % ((cr[0].get("t") or "")[:60], g_.name))
+    ck.require(ncr >= 1, "no end-of-line test found in the parser units")
